@@ -290,14 +290,23 @@ pub proof fn lemma_other_ns(s: Raw, k: Seq<u8>, v: Seq<u8>)
     r is Ok ==> inv(final(deps.storage).view())
 @ensures C02.mint_nomsg
     r is Ok ==> r->Ok_0.messages@.len() == 0
+@ensures C13.mint_up_to_the_cap_goes_through
+    tinfo(old(deps.storage).view()) is Some && tinfo(old(deps.storage).view())->Some_0.mint is Some
+        && tinfo(old(deps.storage).view())->Some_0.mint->Some_0.minter@ == info.sender@
+        && (tinfo(old(deps.storage).view())->Some_0.mint->Some_0.cap is Some ==> supply(old(deps.storage).view()) + amount@ <= tinfo(old(deps.storage).view())->Some_0.mint->Some_0.cap->Some_0@)
+        && addr_ok(recipient@)
+        && (!old(deps.storage).view().contains_key(bkey(recipient@)) || raw_get::<Uint128>(old(deps.storage).view(), bkey(recipient@)) is Some)
+        ==> r is Ok
 @closure 1 C01.mint_credit
     (res: StdResult<Uint128>)
-    ensures res is Ok ==> balance.unwrap_or(Uint128(0)).0 + amount.0 <= u128::MAX && res->Ok_0.0 == balance.unwrap_or(Uint128(0)).0 + amount.0
+    ensures res is Ok, res is Ok ==> balance.unwrap_or(Uint128(0)).0 + amount.0 <= u128::MAX && res->Ok_0.0 == balance.unwrap_or(Uint128(0)).0 + amount.0
 @prefix
     broadcast use cw20_axioms;
     proof {
         lemma_set_supply(old(deps.storage).view(), supply(old(deps.storage).view()) + amount@);
         lemma_credit(set_supply(old(deps.storage).view(), supply(old(deps.storage).view()) + amount@), recipient@, amount@);
+        lemma_ns();
+        assert(bkey(recipient@) != ti_key()) by { assert(unpath(bkey(recipient@)) != unpath(ti_key())); }
     }
 @end
 
